@@ -42,7 +42,13 @@
      VisibleStore       visible on every node while the store keeps it
      GoneAfterExpiry    not visible once both lifetimes have passed
    Defect variants (sanity configs): WebSkipsSuffix, SharedKey, KeepOldLocal,
-   NoLocalExpiry, NoNamespace.                                               *)
+   NoLocalExpiry, NoNamespace.
+   SplitDNS = TRUE makes the two halves of Check (local cache, then store)
+   separate steps with anything in between -- concurrent requests.  Own-id,
+   404 for other hosts and local visibility still hold (DNSCheck_conc_mc.cfg);
+   freshness does not: of two overlapping queries for one id the older store
+   write may land last (DNSCheck_conc_fresh.cfg shows the behaviour), and the
+   store's lifetime counts from the write, not from the query.               *)
 EXTENDS Naturals, Sequences, FiniteSets, TLC, Json
 
 CONSTANTS Domains,      \* sequence of check domains; a domain is a sequence of one-character strings
@@ -206,16 +212,17 @@ DNSEnd(p) ==
     /\ UNCHANGED <<v, now, par, local, latest, seen, nops>>
 
 \* GET /dnscheck/test on node n; hc = "check" iff the host is a well-formed
-\* check name (then i is its id); gm: how the store answers a Get
+\* check name (then i is its id); gm: how the store answers a Get; reads: how
+\* often the store is asked (a local hit never, a local miss exactly once)
 WebResult(n, hc, i, gm) ==
-    IF hc # "check" /\ ~WebSkipsSuffix THEN [status |-> 404, val |-> NoVal, es |-> store]
+    IF hc # "check" /\ ~WebSkipsSuffix THEN [status |-> 404, val |-> NoVal, es |-> store, reads |-> 0]
     ELSE LET lo == Ent(local[n], i) IN
-         IF lo.present /\ (NoLocalExpiry \/ now <= lo.exp) THEN [status |-> 200, val |-> lo.val, es |-> store]
-         ELSE IF gm = "err" THEN [status |-> 500, val |-> NoVal, es |-> store]
-         ELSE IF gm = "rl" THEN [status |-> 429, val |-> NoVal, es |-> store]
+         IF lo.present /\ (NoLocalExpiry \/ now <= lo.exp) THEN [status |-> 200, val |-> lo.val, es |-> store, reads |-> 0]
+         ELSE IF gm = "err" THEN [status |-> 500, val |-> NoVal, es |-> store, reads |-> 1]
+         ELSE IF gm = "rl" THEN [status |-> 429, val |-> NoVal, es |-> store, reads |-> 1]
          ELSE LET g == SGet(store, SKey(i), now) IN
-              IF g.ok THEN [status |-> 200, val |-> g.v, es |-> g.es]
-              ELSE [status |-> 404, val |-> NoVal, es |-> store]
+              IF g.ok THEN [status |-> 200, val |-> g.v, es |-> g.es, reads |-> 1]
+              ELSE [status |-> 404, val |-> NoVal, es |-> store, reads |-> 1]
 DoWeb(n, hc, i, gm) ==
     /\ LET w == WebResult(n, hc, i, gm) IN
        /\ store' = w.es
